@@ -4,7 +4,7 @@ from vmon.hooks import MON
 from vmon.hostile import hostile_smiles
 from vmon.molgen import random_tree_mol, spell
 from vmon.aromgen import standard_system
-from vmon.totality import Totality
+from vmon.totality import Totality, AbortWorkload
 from vmon.props.c08 import atheris_campaign
 
 ID = "C09"
@@ -44,32 +44,35 @@ def run(ctx):
     seeds = scopes.dataset_smiles(100)[ctx.shard::ctx.nshards][:100]
     n = 1500 if quick else 40000
     tables = ["default", "octet_rule", "hypervalent", {"?": 0}, {"?": 12, "C": 1}]
-    for i in range(n):
-        if i % 200 == 0:
-            sf.set_semantic_constraints(rng.choice(tables))
-        if i % 12 == 10:
-            m = random_tree_mol(rng, rng.choice([3, 8, 20]), p_ring=0.2, ncomp=rng.choice([1, 2]))
-            cls, x = "valid", spell(m, rng)[0]
-        elif i % 12 == 11:
-            m, kind_of, ae = standard_system(rng, sizes=(3, 4, 5, 6, 7))
-            cls, x = "aromatic", spell(m, rng)[0]
-        else:
-            cls, x = hostile_smiles(rng, seeds)
-        if len(x) > 40000:
-            x = x[:40000]
-        ctx.count("class." + cls)
-        for strict in (True, False):
-            for attr in (False, True):
-                if cls in ("deep", "long", "digits") and (not strict or attr) and rng.random() < 0.5:
-                    continue
-                if strict:
-                    ctx.count("flags.strict")
-                if attr:
-                    ctx.count("flags.attribute")
-                T.call(x, (strict, attr), cls)
-                ctx.case((x, strict, attr), len(x) >= 3,
-                         sample={"input": x[:120], "class": cls, "strict": strict, "attribute": attr}
-                         if cls in ("mutated", "chars", "rings") and len(x) > 6 else None)
+    try:
+        for i in range(n):
+            if i % 200 == 0:
+                sf.set_semantic_constraints(rng.choice(tables))
+            if i % 12 == 10:
+                m = random_tree_mol(rng, rng.choice([3, 8, 20]), p_ring=0.2, ncomp=rng.choice([1, 2]))
+                cls, x = "valid", spell(m, rng)[0]
+            elif i % 12 == 11:
+                m, kind_of, ae = standard_system(rng, sizes=(3, 4, 5, 6, 7))
+                cls, x = "aromatic", spell(m, rng)[0]
+            else:
+                cls, x = hostile_smiles(rng, seeds)
+            if len(x) > 40000:
+                x = x[:40000]
+            ctx.count("class." + cls)
+            for strict in (True, False):
+                for attr in (False, True):
+                    if cls in ("deep", "long", "digits") and (not strict or attr) and rng.random() < 0.5:
+                        continue
+                    if strict:
+                        ctx.count("flags.strict")
+                    if attr:
+                        ctx.count("flags.attribute")
+                    T.call(x, (strict, attr), cls)
+                    ctx.case((x, strict, attr), len(x) >= 3,
+                             sample={"input": x[:120], "class": cls, "strict": strict, "attribute": attr}
+                             if cls in ("mutated", "chars", "rings") and len(x) > 6 else None)
+    except AbortWorkload as e:
+        ctx.count("workload_aborted_after_step_bound_violations")
     T.close()
     if not quick:
         atheris_campaign(ctx, "encoder", runs=150000)
